@@ -151,6 +151,7 @@ func runC12(r *hx.Result, cfg hx.Config) {
 	}
 	c12BlackBox(r, cfg, rng)
 	c12Where(r, cfg, rng, drv)
+	c12Round3(r, cfg) // seeds_r3.go: several MATCH patterns, hooks+channels, COUNT shortcut histories
 }
 
 func respStrings(v srv.Value) []string {
